@@ -120,7 +120,7 @@ def run_kani_unit(name, workdir, tier, prop):
             text, line = extract_item(REPO, e["file"], e["sel"], within=e.get("within"))
             for a, b in e.get("replace", []):
                 text = text.replace(a, b)
-            with open(os.path.join(dst, e["out"]), "w") as f:
+            with open(os.path.join(dst, e["out"]), "a" if e.get("append") else "w") as f:
                 f.write(e.get("prefix", "") + text + e.get("suffix", "") + "\n")
             out["extracted"].append(dict(file=e["file"], item=e["sel"], line=line))
     except RuntimeError as ex:
